@@ -72,6 +72,14 @@ func Gen(t *rapid.T, rtl bool) Case {
 		c.RE2 = rapid.IntRange(0, 7).Draw(t, "re2") == 0
 	}
 	root := gen.Pattern(t, cfg)
+	if rapid.IntRange(0, 4).Draw(t, "accelshape") == 0 {
+		// shapes the candidate searches recognise; kept only if they stay inside the fragment
+		// (every quantified body non-nullable and not itself a bare repeater)
+		a := gen.Accel(t, gen.Cfg{Depth: 2, Inline: "ims", CaseSafe: true, NoBareCond: rtl})
+		if inFragment(a) {
+			root = a
+		}
+	}
 	gen.Resolve(t, root, c.Base, false, cfg)
 	c.AST = root
 	po := ast.PrintOpts{}
@@ -106,6 +114,12 @@ func Gen(t *rapid.T, rtl bool) Case {
 		}
 	}
 	return c
+}
+
+func inFragment(n *ast.Node) bool {
+	return !n.Has(func(x *ast.Node) bool {
+		return x.K == ast.KQuant && (ast.Nullable(x.Kids[0]) || ast.BareRepeater(x.Kids[0]))
+	})
 }
 
 func refString(r refmatch.Result, nums []int) string {
